@@ -397,7 +397,7 @@ func main() {
 	c.Assumptions = []string{"crash = process kill: bytes handed to write() persist, no power-loss reordering (no fsync requirement is stated)", "file operations of package cred go through verif/shim/vos (overlay), whose WriteFile is open(O_TRUNC)+write+close exactly as os.WriteFile", "debounce runs on the virtual clock"}
 	crashPart(c)
 	params := []string{"queued", "cooling", "afterSaveNewChange", "changeDuringCooldown", "deleteQueued", "idle"}
-	for _, r := range harness.ExploreBatch("shutdown", params, harness.Pick(c, 2, 3), harness.Pick(c, 60*time.Second, 20*time.Minute), false) {
+	for _, r := range harness.ExploreBatch("shutdown", params, harness.Pick(c, 2, 3), harness.Pick(c, 60*time.Second, 5*time.Minute), false) {
 		c.Sample(map[string]any{"scenario": "shutdown phase " + r.Param, "executions": r.Stats.Execs, "observations": len(r.Stats.Observations)})
 		c.AddExploration("shutdown", r.Param, r.Stats, harness.Confirm(shutdownScenario(r.Param)))
 	}
